@@ -45,6 +45,22 @@ def run(name, seed):
         out["transform_x2"] = zoo.canon(B)
     except Exception as e:
         out["transform_x2"] = exc(e)
+    # one item at a time (row-producing estimators): row i of the batch must be the row of item i alone
+    if c.rowwise and "err" not in out["transform_x2"] and not out.get("degenerate_svd"):
+        try:
+            singles = []
+            n2 = out["n_x2"]
+            for i in range(min(n2, 4)):
+                if hasattr(c.X2, "shape"):
+                    xi = c.X2[i:i + 1]
+                    kw = dc(c.tr2_kw)
+                else:
+                    xi = [dc(c.X2[i])]
+                    kw = {k: ([v[i]] if isinstance(v, list) and len(v) == n2 else v) for k, v in dc(c.tr2_kw).items()}
+                singles.append(zoo.canon(est.transform(xi, **kw)))
+            out["transform_singles"] = singles
+        except Exception as e:
+            out["transform_singles"] = exc(e)
     try:
         S = strip_unseen(c, est)
         if S is not None:
